@@ -51,6 +51,10 @@ SOURCE_OBLIGATIONS = [
     "JanetModel.Props.C06.order_per_giver_taker",
     "JanetModel.Props.C06.noSelfMatch_needed",
     "JanetModel.Props.C06.selfMatch_drops_value",
+    "JanetModel.Props.C06.supervisor_event_delivered",
+    "JanetModel.Props.C06.closed_supervisor_event_skipped",
+    "JanetModel.Props.C06.rselect_any_order",
+    "JanetModel.Props.C06.close_keeps_items_take_gets_nil",
     "JanetModel.Props.C06.current_good",
     "JanetModel.Props.C06.no_lost_wakeup_partial",
 ]
